@@ -338,6 +338,11 @@ typedef struct {
     edn_default_reader_mode_t default_reader_mode;
     /* Discard mode - when true, readers are not invoked */
     bool discard_mode;
+    /* Set by edn_read_value when the input ends between top-level forms (only
+     * whitespace, comments and complete discarded forms were seen): the one
+     * end-of-input condition that the eof_value option stands for. Written by
+     * the reader, initialised and read only by edn_read_with_options. */
+    bool eof_between_forms;
 } edn_parser_t;
 
 edn_arena_t* edn_arena_create(void);
